@@ -63,6 +63,35 @@ for j = range lim {
 	YIELD(int(j) + 30)
 }
 RETNIL`, "range:int-const-typed-key"),
+		G("range-assign-form-value-operand-depends-on-key", `
+xs := []int{10, 20, 30}
+a := make([]int, 4)
+i := 3
+for i, a[i] = range xs {
+	YIELD(i)
+}
+YIELD(-1)
+for _, v := range a {
+	YIELD(v)
+}
+m := map[int]int{7: 70}
+m2 := map[int]int{}
+k := -5
+for k, m2[k] = range m {
+	tr.U(k)
+}
+YIELD(m2[-5]*1000 + m2[7] + k)
+s := "hé"
+rs := make([]rune, 6)
+j := 5
+f := func() int {
+	for j, rs[j] = range s {
+		tr.U(j)
+	}
+	return int(rs[5])*1000 + int(rs[0])
+}
+YIELD(f())
+RETNIL`, "range-form:k,v=", "range-assign-operand-order"),
 		G("range-typed-int", `
 var n uint8 = 3
 for i := range n {
